@@ -18,9 +18,10 @@ Three parts, one check (``spec['part']``):
 
 Latitude (DESIGN 9.1), all counted:
 
-* RFC 3501 allows exactly one SP between arguments: a variant with extra or
-  trailing spaces may be refused with BAD (``space_variant_refused``); only if
-  it is accepted must result and effect be identical.
+* RFC 3501 allows exactly one SP between arguments and CRLF as line end: a
+  variant with extra or trailing spaces, or with bare LF line ends, may be
+  refused with BAD (``space_variant_refused`` / ``eol_variant_refused``);
+  only if it is accepted must result and effect be identical.
 * the server may echo a header list (``BODY[HEADER.FIELDS (...)]``) in any
   spelling and order: the echo is compared as a set of decoded names.
 * LIST/LSUB lines are compared as a set; a CREATE that is refused (NO/BAD) is
@@ -251,6 +252,7 @@ def render(tag: bytes, parts: list[Any], kinds: list[str],
     """Wire segments for ``Conn.command``: a new segment starts after every
     synchronising literal introducer."""
     rng = random.Random(seed)
+    nl = b'\n' if space == 'bare-lf' else b'\r\n'
     nsp = sum(1 for p in parts if p is SP)
     dbl = rng.randrange(nsp) if nsp and space == 'double-one' else -1
     segs: list[bytes] = []
@@ -273,14 +275,14 @@ def render(tag: bytes, parts: list[Any], kinds: list[str],
             elif k == 'quoted':
                 cur += quote(v)
             elif k == 'nonsync':
-                cur += b'{%d+}\r\n' % len(v) + v
+                cur += b'{%d+}' % len(v) + nl + v
             else:
-                cur += b'{%d}\r\n' % len(v)
+                cur += b'{%d}' % len(v) + nl
                 segs.append(bytes(cur))
                 cur = bytearray(v)
     if space == 'trailing':
         cur += b' '
-    cur += b'\r\n'
+    cur += nl
     segs.append(bytes(cur))
     return segs
 
@@ -310,6 +312,9 @@ def plan(rng: random.Random, parts: list[Any]) \
     if not args or rng.random() < 0.5:
         out.append(('space', base, 'upper', rng.choice(
             ['double-one', 'double-all', 'trailing'])))
+    if rng.random() < 0.3:
+        # not legal either (RFC 3501: CRLF), same conditional rule
+        out.append(('eol', base, 'upper', 'bare-lf'))
     return base, out
 
 
@@ -650,7 +655,8 @@ def classify(base_mech: str, label: str, fam: dict[str, Any],
                 k == 'atom' and b'}' in a.v for k, a in zip(kinds, args)):
             return 'atom-with-rbrace-refused'
     for side, kinds in ((var, vkinds), (base, bkinds)):
-        if side['cond'] == b'HUNG' and any(
+        if label not in ('eol', 'space', 'case') and \
+                side['cond'] == b'HUNG' and any(
                 k == 'nonsync' and _LITPLUS_TAIL.search(a.v)
                 for k, a in zip(kinds, args)):
             # RFC 7888 literal whose *content* ends in "{n+}" right before
@@ -664,15 +670,17 @@ def classify(base_mech: str, label: str, fam: dict[str, Any],
     kind = label
     if label in KINDS:
         kind = KIND_NAME[label]
-    return '%s:%s:%s' % (base_mech, kind, fam['word'].decode())
+    return '%s:%s:%s' % (base_mech, kind,
+                         fam['word'].decode().replace(' ', '-'))
 
 
 def compare(fam: dict[str, Any], label: str, base: dict[str, Any],
             var: dict[str, Any], bkinds: list[str], vkinds: list[str],
             counters: dict[str, int]) -> dict[str, Any] | None:
-    if label == 'space' and var['cond'] == b'BAD' and base['cond'] != b'BAD':
-        counters['space_variant_refused'] = \
-            counters.get('space_variant_refused', 0) + 1
+    if label in ('space', 'eol') and var['cond'] == b'BAD' \
+            and base['cond'] != b'BAD':
+        counters[label + '_variant_refused'] = \
+            counters.get(label + '_variant_refused', 0) + 1
         return None
     wit = {'command': fam['word'], 'backend': fam['backend'],
            'values': [a.v for a in args_of(fam['cmd'])],
@@ -905,8 +913,6 @@ def gen_value(rng: random.Random, pos: str, backend: str) \
             continue
         if mbox and not mailbox_raw_ok(v, backend):
             continue
-        if pos == 'astring' and c in ('mutf7',):
-            pass
         return v, c
     return b'fallback', 'plain'
 
@@ -1951,7 +1957,8 @@ class C18(Check):
             'wildcards, long, modified UTF-7, &-, special tokens, CR/LF) run '
             'on fresh identically prepared accounts in a random base spelling '
             'and in each uniform sibling spelling (atom/quoted/{n}/{n+}), a '
-            'keyword-case variant and an extra-space variant; names case = 8 '
+            'keyword-case variant, an extra-space variant and a bare-LF '
+            'variant; names case = 8 '
             'generated Unicode names created and read back through LIST/LSUB/'
             'STATUS; inproc case = n generated values of one parser class x '
             '5 tails, wire->object->bytes->object.  distinct = hash of '
@@ -1974,7 +1981,7 @@ class C18(Check):
     floors = {'commands_compared': 1000, 'spelling_pairs_compared': 3000,
               'pairs_atom': 300, 'pairs_quoted': 500,
               'pairs_sync_literal': 500, 'pairs_nonsync_literal': 500,
-              'pairs_case': 300, 'pairs_space': 300,
+              'pairs_case': 300, 'pairs_space': 300, 'pairs_eol': 150,
               'names_roundtripped': 500, 'names_status_checked': 400,
               'rt_QuotedString': 2000, 'rt_LiteralString': 2000,
               'rt_AString': 2000, 'rt_SequenceSet': 2000, 'rt_Flag': 2000,
@@ -1988,9 +1995,9 @@ class C18(Check):
     def cases(self, tier: str, seed: int) -> Iterable[dict[str, Any]]:
         quick = tier == 'quick'
         rng = random.Random(seed * 7919 + 18)
-        n_e2e = 1400 if quick else 1400 * 15
-        n_names = 120 if quick else 120 * 15
-        n_inproc = 8 if quick else 8 * 15      # per class
+        n_e2e = 1700 if quick else 1700 * 14
+        n_names = 120 if quick else 120 * 14
+        n_inproc = 8 if quick else 8 * 14      # per class
         names = [f[0] for f in FAMILIES]
         weights = [f[1] for f in FAMILIES]
         out: list[dict[str, Any]] = []
@@ -2099,8 +2106,10 @@ class C18(Check):
         c = agg['counters']
         classes = sorted(k[6:] for k in c if k.startswith('class|'))
         return {'argument_classes_seen': classes,
+                'argument_classes_distinct': len(classes),
                 'latitude_used': {
                     'space_variant_refused': c.get('space_variant_refused', 0),
+                    'eol_variant_refused': c.get('eol_variant_refused', 0),
                     'names_create_refused': c.get('names_create_refused', 0)}}
 
 
